@@ -442,6 +442,7 @@ inductive Op where
   | close
   | receive
   | plans (ps : List Plan)      -- the harness installs the reactions to the coming requests
+  | enqueue (its : List Item)   -- unsolicited traffic arrives
 deriving Repr, DecidableEq, Inhabited
 
 def step (s : St) : Op → St × Out
@@ -465,6 +466,7 @@ def step (s : St) : Op → St × Out
   | .close => close s
   | .receive => receiveMsg s
   | .plans ps => ({ s with plans := ps }, .ok .none)
+  | .enqueue its => ({ s with queue := s.queue ++ its }, .ok .none)
 
 def run (s : St) : List Op → St × List Out
   | [] => (s, [])
